@@ -3,8 +3,9 @@
 Real code: phylib.io.merge.Merger(...).merge() on generated KiloSort-style probe directories
 (harness/vt/datasets_c11.py).  Observed: the written per-spike files, cluster_probes.npy, the merger's
 cluster/template offsets, the written cluster_*.tsv files, the arrays and metadata of the returned TemplateModel,
-SHA-256 of every input file before/after, and the merged templates.npy (cross-property clause 29: the merged
-spike_templates index the rows of the merged templates.npy)."""
+SHA-256 of every input file before/after, the merged templates.npy (cross-property clause 29: the merged
+spike_templates index the rows of the merged templates.npy), and the integer dtypes of the merged spike_times /
+spike_clusters / spike_templates files (clause 30: nothing wrapped around)."""
 import copy
 import itertools
 import os
@@ -19,7 +20,10 @@ ID = 'C11'
 RULE = ('merges of generated probe directories: corpus (probe with exactly one spike, id dtypes differing between probes, '
         'heavy ties, gaps, curated clusters, TSV present in all/some/none, a probe without spikes, a non-last / middle / last '
         'probe whose trailing templates have no spike, unused middle templates, a probe whose spikes name a template beyond '
-        'its templates.npy), then EVERY pair of '
+        'its templates.npy, cluster_*.tsv rows for cluster ids above the probe\'s largest spike cluster id in a non-last / '
+        'last / every probe with the next probe having or lacking the file, uint16 / int32 / uint32 ids of two and three '
+        'probes whose merged id range ends exactly at, one below and above 65535 (clusters and templates), first probe '
+        'with a narrower id or time dtype than a later one), then EVERY pair of '
         'non-decreasing time vectors of 1..3 spikes over 3 time values (2 probes; thorough: also 3 probes of 1..2 spikes '
         'and 2 probes of up to 4 spikes) with pseudo-random ids, then seeded random merges of 1..4 probes x 1..30 spikes '
         '(ties inside and across probes, id gaps, curated clusters, time/id/amplitude dtypes, (n,1) vectors, TSV files in '
@@ -38,6 +42,8 @@ CLAUSES = {
     28: 'input directories byte-identical after the merge (observed by SHA-256, not proved)',
     29: 'C12_spike_template_rows (link C11 x C12): row spike_templates[i] of the merged templates.npy is the template the '
         'spike named in its own probe, on that probe\'s channel block',
+    30: 'C11_no_wrap: the integer dtypes of the merged spike_times / spike_clusters / spike_templates files hold the largest '
+        'input time / merged cluster id / merged template id',
 }
 TRUSTED = ['np.load/np.save/np.concatenate/np.argsort(kind="stable")/fancy indexing, csv reader/writer, read_python/write_python',
            "C12's functions (write_channel_data .. write_misc, write_params) run inside merge() on fixed harmless "
@@ -45,11 +51,11 @@ TRUSTED = ['np.load/np.save/np.concatenate/np.argsort(kind="stable")/fancy index
            'phylib.io.model.TemplateModel loading of the merged directory (judged by C04)']
 ASSUMES = ['every probe has >= 1 spike (np.max of an empty id array raises: modelled as an error exit) and the merged dataset '
            '>= 2 spikes (TemplateModel squeezes a one-spike dataset)',
-           'ids >= 0; values fit the dtype of the first probe (np.concatenate(...).astype(first dtype) is not modelled)',
+           'ids >= 0 and times >= 0, below 2^63; every input value fits the dtype of its own file (np.concatenate of mixed '
+           'uint64/int64 arrays passes through float64: exact below 2^53)',
            'every spike names one of the templates of its probe (template id < rows of templates.npy); inputs violating it '
            'are compared with the model only (the merge goes through with colliding template ids: C11_template_count_needed)',
-           'metadata ids lie in 0..max cluster id of their probe (ids beyond it fall into the next probe\'s interval; '
-           'see notes/C11.md)',
+           'metadata ids >= 0 (a row for an id that no spike carries is a cluster of the probe: fix-c11c)',
            'metadata values are canonical text (no quoting, numbers in repr form)',
            'generated inputs avoid C12 triggers: int32 channel map / index tables, 2 channels, >= 2 templates per probe']
 TIMEOUT = {'quick': 30, 'thorough': 60}
@@ -89,7 +95,9 @@ def _add_meta(p, rng, names, wild=False):
         return
     mx = max(p['clu'])
     for name in names:
-        ids = [c for c in range(mx + 1) if rng.random() < 0.6]
+        # clusters without spikes above the largest spike cluster id (KiloSort lists every template in its TSV files)
+        above = rng.choice([0, 0, 0, 1, 2, 3])
+        ids = [c for c in range(mx + 1 + above) if rng.random() < 0.6]
         if wild and ids and rng.random() < 0.3:
             ids.append(rng.choice(ids))                # duplicate id: the last row wins
         rng.shuffle(ids)
@@ -181,6 +189,47 @@ def _corpus(rng):
     add([P0, dict(P1, extra_t=2)]); add([P0, P1, dict(P2, extra_t=2)])
     # guard violated (a spike names a template beyond the probe's templates.npy): compared with the model only
     add([dict(P0, nt=2, meta={}), dict(P1, meta={})]); add([dict(P1, nt=1, meta={}), dict(P0, meta={})])
+    # fixed defect 3 (fix-c11c): cluster_*.tsv rows for cluster ids above the probe's largest SPIKE cluster id (clusters
+    # without spikes, which KiloSort lists too): the row keeps an id of the probe's own range.  Next probe with / without
+    # the file, in the last probe only, in every probe, different files naming different ids, an id far above
+    KS = lambda rows: {'cluster_KSLabel.tsv': {'field': 'KSLabel', 'rows': rows}}
+    Q0 = dict(P2, times=[1], clu=[0], tmpl=[0], meta={})
+    add([dict(Q0, meta=KS([[0, 'good'], [1, 'mua']])), dict(Q0, times=[2], meta=KS([[0, 'noise']]))])
+    add([dict(Q0, meta=KS([[0, 'good'], [1, 'mua']])), dict(Q0, times=[2])])
+    add([Q0, dict(Q0, times=[2], meta=KS([[0, 'good'], [3, 'mua']]))])
+    add([dict(P0, meta=KS([[0, 'good'], [4, 'mua'], [5, 'noise'], [7, 'good']])), dict(P1, meta=KS([[1, 'good'], [2, 'mua']])),
+         dict(P2, meta=KS([[3, 'good'], [9, 'noise']]))])
+    add([dict(P0, meta={'cluster_Amplitude.tsv': {'field': 'Amplitude', 'rows': [[6, '2.5']]},
+                        'cluster_KSLabel.tsv': {'field': 'KSLabel', 'rows': [[5, 'good']]}}), P1])
+    add([dict(P0, meta=KS([[40, 'mua']])), P1, P2])
+    add([dict(P1, meta=KS([[2, 'mua']])), dict(P0, meta={})])
+    # fixed defect 4 (fix-c11c): merged ids must not wrap around their integer dtype.  Cluster ids of two uint16 probes
+    # whose merged range ends one below / exactly at / one above 65535; a middle probe whose own dtype cannot hold its
+    # shifted ids; a first probe narrower than a later one; an offset that does not fit the later probe's dtype
+    B0 = dict(P2, times=[1, 2], amps=[1.0, 2.0], tmpl=[0, 1], clu=[0, 65530], meta={})
+    B1 = dict(P2, times=[2, 3], amps=[3.0, 4.0], tmpl=[0, 1], clu=[0, 4], meta={})
+    add([dict(B0, cdt='uint16', clu=[0, 65529]), dict(B1, cdt='uint16')])
+    add([dict(B0, cdt='uint16'), dict(B1, cdt='uint16')])
+    add([dict(B0, cdt='uint16'), dict(B1, cdt='uint16', clu=[0, 5])])
+    add([dict(B1, cdt='int32'), dict(B0, cdt='uint16'), dict(B1, cdt='int32')])
+    add([dict(B1, cdt='uint16'), dict(B1, cdt='int32', clu=[0, 70000])])
+    add([dict(B1, cdt='int32', clu=[0, 70000]), dict(B1, cdt='uint16')])
+    add([dict(B1, cdt='uint16', clu=[0, 65535]), dict(B1, cdt='uint16', clu=[0, 65535]), dict(B1, cdt='uint16', clu=[3, 65535])])
+    add([dict(B0, cdt='uint16', meta=KS([[65534, 'mua']])), dict(B1, cdt='uint16', clu=[0, 1])])      # the metadata id counts
+    # the same for template ids (65531 templates in one probe: the content of templates.npy is not transcribed)
+    T0 = dict(P2, times=[1, 2], amps=[1.0, 2.0], tmpl=[0, 65530], clu=[0, 1], meta={}, nt=65531, idt='uint16')
+    T1 = dict(P2, times=[2, 3], amps=[3.0, 4.0], tmpl=[0, 1], clu=[0, 1], meta={}, idt='uint16')
+    big = []
+    big.append([T0, dict(T1, nt=5, tmpl=[0, 4])]); big.append([T0, dict(T1, nt=6, tmpl=[0, 5])])
+    big.append([dict(T1, nt=2, idt='int32'), T0, dict(T1, nt=3, idt='int32')])
+    big.append([dict(T1, nt=2), dict(T0, idt='int64')])
+    for probes in big:
+        cases.append({'kind': 'merge', 'inp': {'rate': 100.0, 'probes': probes, 'big': True}})
+    # ... and for spike times: a first probe whose time dtype is narrower than a later probe's largest time
+    add([dict(B1, clu=[0, 1], tdt='uint32'), dict(B1, clu=[0, 1], tdt='int64', times=[3, 2 ** 32 + 1])])
+    add([dict(B1, clu=[0, 1], tdt='int32'), dict(B1, clu=[0, 1], tdt='uint64', times=[3, 2 ** 31 + 5])])
+    add([dict(B1, clu=[0, 1], tdt='int32', times=[1, 2 ** 31 - 1]), dict(B1, clu=[0, 1], tdt='uint32', times=[2, 2 ** 31 - 1])])
+    add([dict(B1, clu=[0, 1], tdt='uint32', times=[1, 2 ** 32 - 1]), dict(B1, clu=[0, 1], tdt='uint64', times=[2, 2 ** 32])])
     # a probe without spikes: np.max raises (error exit of the model)
     add([P0, {'times': [], 'amps': [], 'tmpl': [], 'clu': [], 'meta': {}}])
     for c in cases:
@@ -263,10 +312,15 @@ def run_case(case):
                 raise ValueError('not one-dimensional: %r' % (a.shape,))
             return [D.tok(float(x)) for x in a.tolist()]
         ld = lambda fn: np.load(os.path.join(out, fn))
-        T = ld('templates.npy')
+        T = None if inp.get('big') else ld('templates.npy')
+        dts = [ld(fn).dtype.name for fn in ('spike_times.npy', 'spike_clusters.npy', 'spike_templates.npy')]
+        for name in dts:
+            if name not in DT:
+                raise ValueError('merged file of dtype %s' % name)
         obs = {
+            'dts': dts,
             'templates': ([[[D.tok(float(x)) for x in row] for row in tm] for tm in T.astype(np.float64).tolist()]
-                          if T.ndim == 3 and T.size else None),
+                          if T is not None and T.ndim == 3 and T.size else None),
             'times': ints(ld('spike_times.npy')), 'amps': toks(ld('amplitudes.npy')),
             'tmpl': ints(ld('spike_templates.npy')), 'clu': ints(ld('spike_clusters.npy')),
             'cprobes': ints(ld('cluster_probes.npy')),
@@ -319,19 +373,43 @@ def _tlll(T):
     return q.lst(T, lambda tm: q.lst(tm, lambda row: q.lst(row, lambda v: D.coq_tok(tuple(v) if isinstance(v, list) else v))))
 
 
+DT = {'uint8': 'U8', 'uint16': 'U16', 'uint32': 'U32', 'uint64': 'U64', 'int8': 'I8', 'int16': 'I16', 'int32': 'I32',
+      'int64': 'I64'}
+
+
+def _dts(names):
+    return '(%s, %s, %s)' % tuple(DT[n] for n in names)
+
+
+def _rle(l):
+    runs = []
+    for v in l:
+        if runs and runs[-1][0] == v:
+            runs[-1][1] += 1
+        else:
+            runs.append([v, 1])
+    return '(rle %s)' % q.lst(runs, lambda r: '(%s, %s)' % (q.z(r[0]), q.z(r[1])))
+
+
 def encode(case, obs):
     ps = case['inp']['probes']
-    cin = '(InMerge %s %s)' % (q.lst(ps, _enc_probe), q.lst(
-        [[[[D.tok(v) for v in row] for row in tm] for tm in D11.templates_of(p, k)] for k, p in enumerate(ps)], _tlll))
+    p0 = ps[0] if ps else {}
+    dts = _dts([p0.get('tdt', 'uint64'), p0.get('cdt', 'uint32'), p0.get('idt', 'uint32')])
+    if case['inp'].get('big'):
+        ts = 'None'
+    else:
+        ts = '(Some %s)' % q.lst(
+            [[[[D.tok(v) for v in row] for row in tm] for tm in D11.templates_of(p, k)] for k, p in enumerate(ps)], _tlll)
+    cin = '(InMerge %s %s %s)' % (q.lst(ps, _enc_probe), ts, dts)
     if obs[0] == 'crash':
         return cin, 'ObsCrash'
     o = obs[1]
     r = o['ret']
-    cobs = '(ObsMerged (mkobs %s %s %s %s %s %s %s %s (%s, %s, %s, %s) %s %s) %s)' % (
-        q.zl(o['times']), _amps(o['amps']), q.zl(o['tmpl']), q.zl(o['clu']), q.zl(o['cprobes']), q.zl(o['coffs']),
+    cobs = '(ObsMerged (mkobs %s %s %s %s %s %s %s %s (%s, %s, %s, %s) %s %s) %s %s)' % (
+        q.zl(o['times']), _amps(o['amps']), q.zl(o['tmpl']), q.zl(o['clu']), _rle(o['cprobes']), q.zl(o['coffs']),
         q.zl(o['toffs']), q.lst(o['meta'], _mt), q.zl(r[0]), _amps(r[1]), q.zl(r[2]), q.zl(r[3]),
         q.lst(o['ret_meta'], _mt), q.b(o['unchanged']),
-        'None' if o.get('templates') is None else '(Some %s)' % _tlll(o['templates']))
+        'None' if o.get('templates') is None else '(Some %s)' % _tlll(o['templates']), _dts(o['dts']))
     return cin, cobs
 
 
@@ -374,7 +452,14 @@ def dist(case, obs):
            'unused_trailing_templates_in_last_probe=%s' % bool(
                ps and ps[-1]['tmpl'] and D11.n_templates(ps[-1]) > max(ps[-1]['tmpl']) + 1),
            'unused_middle_templates=%s' % any(p['tmpl'] and len(set(p['tmpl'])) < max(p['tmpl']) + 1 for p in ps),
-           'template_guard_violated=%s' % any(p['tmpl'] and D11.n_templates(p) <= max(p['tmpl']) for p in ps)]
+           'template_guard_violated=%s' % any(p['tmpl'] and D11.n_templates(p) <= max(p['tmpl']) for p in ps),
+           'meta_id_above_spike_max_nonlast=%s' % any(
+               p['clu'] and any(r[0] > max(p['clu']) for m in p.get('meta', {}).values() for r in m['rows']) for p in ps[:-1]),
+           'meta_id_above_spike_max_last=%s' % bool(
+               ps and ps[-1]['clu'] and any(r[0] > max(ps[-1]['clu']) for m in ps[-1].get('meta', {}).values() for r in m['rows'])),
+           'merged_dtypes=%s' % ('/'.join(obs[1]['dts']) if obs[0] == 'merged' else '-'),
+           'dtype_promoted=%s' % (obs[0] == 'merged' and bool(ps) and
+                                  obs[1]['dts'] != [ps[0].get('tdt'), ps[0].get('cdt'), ps[0].get('idt')])]
     for fn in META:
         n = sum(1 for p in ps if fn in p.get('meta', {}))
         out.append('%s=%s' % (fn, 'none' if n == 0 else 'all' if n == len(ps) else 'some'))
@@ -386,14 +471,13 @@ def dist(case, obs):
 
 def size(case):
     ps = case['inp']['probes']
-    return 50 * len(ps) + sum(10 * len(p['times']) + sum(p['times']) + sum(p['clu']) + sum(p['tmpl']) +
+    return 50 * len(ps) + sum(10 * len(p['times']) + sum(p['times']) + sum(p['clu']) + sum(p['tmpl']) + (p.get('nt') or 0) +
+                              sum(r[0] for m in p.get('meta', {}).values() for r in m['rows']) +
                               5 * sum(len(m['rows']) + 1 for m in p.get('meta', {}).values()) for p in ps)
 
 
 def _fix_meta(p):
-    mx = max(p['clu']) if p['clu'] else -1
-    for m in p.get('meta', {}).values():
-        m['rows'] = [r for r in m['rows'] if r[0] <= mx]
+    pass                       # any id >= 0 may be listed (a cluster without spikes), nothing to repair
 
 
 def shrink(case):
@@ -405,7 +489,8 @@ def shrink(case):
             return None
         for p in new:
             _fix_meta(p)
-        return {'kind': 'merge', 'inp': {'rate': inp.get('rate', 100.0), 'probes': new}}
+        big = inp.get('big') or any(D11.n_templates(p) > 64 for p in new)
+        return {'kind': 'merge', 'inp': dict({'rate': inp.get('rate', 100.0), 'probes': new}, **({'big': True} if big else {}))}
     out = []
     for k in range(len(ps)):
         if len(ps) > 1:
@@ -437,9 +522,24 @@ def shrink(case):
             out.append(mk(new))
         for key in ('times', 'tmpl', 'clu'):
             for i in range(n):
+                if p[key][i] > 8:
+                    new = copy.deepcopy(ps)
+                    new[k][key][i] //= 2
+                    out.append(mk(new))
                 if p[key][i] > 0:
                     new = copy.deepcopy(ps)
                     new[k][key][i] -= 1
+                    out.append(mk(new))
+        if p.get('nt') is not None and p['nt'] > 2:
+            for v in (p['nt'] // 2, p['nt'] - 1):
+                new = copy.deepcopy(ps)
+                new[k]['nt'] = max(2, v)
+                out.append(mk(new))
+        for fn in list(p.get('meta', {})):
+            for j, r in enumerate(p['meta'][fn]['rows']):
+                if r[0] > 0:
+                    new = copy.deepcopy(ps)
+                    new[k]['meta'][fn]['rows'][j][0] -= 1
                     out.append(mk(new))
         for i in range(n):
             if p['amps'][i] != 1.0:
